@@ -101,6 +101,14 @@ Proof.
   intros s H. unfold poll_next. destruct (N.eqb_spec (st_rem s) 0); [contradiction|reflexivity].
 Qed.
 
+(* the SETTINGS identifier lists the frame decoder decides with (the reference reader is handed the model's verdict
+   on SETTINGS contents, so these lists are pinned here): reserved = exactly RFC 9114 7.2.4.1's 0x00,0x02..0x05 *)
+Theorem C02_settings_ids :
+  fs_forbidden_ids = [0; 2; 3; 4; 5] /\
+  fs_supported_ids = [6; 1; 7; 8; 727725890; 727725891; 51] /\
+  fs_settings_len = 8 /\ fs_settings_min = 2.
+Proof. exact settings_id_lists. Qed.
+
 (* ---------- non-vacuity ---------- *)
 Definition ex_goaway_trailing : list action :=
   [Arrive (Chunk [7; 2; 4]); CallAuto; Arrive (Chunk [0; 33; 0]); Arrive Fin; CallAuto].
@@ -147,3 +155,4 @@ Print Assumptions C02_error_code_sites.
 Print Assumptions C02_error_code_of_tail.
 Print Assumptions C02_no_panic.
 Print Assumptions C02_poll_next_contract.
+Print Assumptions C02_settings_ids.
